@@ -15,7 +15,7 @@ IMPORTS = ('Require Import V.Model.WireBytes V.Model.WireCodes V.Model.WireComma
            'Require Import V.Base.MachineInt V.Model.LogBase V.Model.Ring V.Model.RingThreads V.Spec.Fifo V.Oracle.C06Oracle.')
 RULE = ('seq: operation sequences on one ring (write lengths 0..cap/8+1, read limits {0,1,2,max}, size, next id, heartbeat, '
         'unblock, dump after every op for small rings); length-6 sequences over {write len, read limit} for cap in {8,16,32,64} '
-        '(thorough: exhaustive for cap 8 and 16, 40000 samples for 32 and 64; quick: stratified sample) with the start rotating over every '
+        '(thorough: exhaustive for cap 8, up to 20000 for cap 16, 12000 samples for 32 and 64; quick: stratified sample) with the start rotating over every '
         '8-aligned index of the ring, plus starts at positions next to 2^31 and 2^32 and with a stale head cache; random sequences up to '
         '500 ops for cap <= 4096; malformed stream (type -1, over-long, negative limit). '
         'conc: 2-3 producer threads x 1-3 writes + a consumer thread under the deterministic scheduler on the access hook: random '
@@ -75,7 +75,7 @@ def generate(rng, tier):
         total = len(alpha) ** n
         starts = list(range(0, cap, 8))
         if big:
-            budget = {8: total, 16: total, 32: 40000, 64: 40000}[cap]
+            budget = {8: total, 16: min(total, 20000), 32: 12000, 64: 12000}[cap]     # sized so that the thorough tier ends in about a quarter of an hour
         else:
             budget = {8: 200, 16: 350, 32: 500, 64: 650}[cap]
         if budget >= total:
@@ -161,7 +161,7 @@ def _conc(cap, p0, pre, limits, progs, sched, post=None, stops=None):
 def gen_conc(rng, tier):
     big = tier == 'thorough'
     cases = []
-    nrand = 300 if not big else 8000
+    nrand = 300 if not big else 2500
     for i in range(nrand):
         cap = rng.choice([32, 64, 64, 128])
         nprod = rng.choice([2, 2, 3])
@@ -281,7 +281,7 @@ def gen_proxy(rng, tier):
             for first, second in ((long_pub, c), (c, long_pub), (long_sub, b), (long_pub, long_sub)):
                 for j in (0, 1, 3, BIG):
                     cases.append(_proxy(cap, 7, [[first, c], [second]], [[0, j], [1, 2], [0, BIG], [1, BIG]]))
-    for i in range(120 if not big else 4000):
+    for i in range(120 if not big else 1200):
         nthr = rng.choice([2, 2, 3])
         k = 0
         progs = []
